@@ -268,6 +268,10 @@ def report(prop, tier, seed, recs, claimed, tv_rec, pre, setup_errors, hm, wall)
             bounds=getattr(hm, 'BOUNDS', {}).get(tier, ''), outside_claim=getattr(hm, 'OUTSIDE', ''),
             inconclusive=inconcl, stretch_inconclusive=stretch_inconcl,
             known_findings=[k['finding'] for _, k in known],
+            solver_cross_check=dict(queries_redecided=sum(r.get('xcheck', {}).get('done', 0) for r in recs),
+                                    agreed=sum(r.get('xcheck', {}).get('agree', 0) for r in recs),
+                                    skipped_other_solver_no_verdict=sum(r.get('xcheck', {}).get('skipped', 0) for r in recs),
+                                    tools='/usr/bin/z3 4.8.12, cvc5 1.0 binary on the SMT-LIB2 dump of one obligation per harness instance'),
             translator_validation_runs=(tv_rec or {}).get('runs', 0),
             translator_validated_kernels=(tv_rec or {}).get('kernels', []),
             oracle_self_check=pre.get('oracle_checked', 0), pre=pre.get('info', {}),
